@@ -30,17 +30,22 @@ ReqRolesSmall == {NoRole, Viewer, Admin}
 ReqRolesAll == {NoRole, Viewer, Operator, Engineer, Admin}
 
 SeedTok(role, en, exp, created) == [id |-> created, tok |-> 1, role |-> role, enabled |-> en, exp |-> exp, created |-> created]
-Seeds == CASE SeedMode = "none" -> {<<>>}
-           [] SeedMode = "plain" -> {<<>>, <<SeedTok(Admin, TRUE, T0 + 1, T0)>>, <<SeedTok(Engineer, FALSE, T0 + TokenTTL, T0)>>}
-           \* entries written by a version without expiry: one overdue at start, one not yet
-           [] SeedMode = "legacy" -> {<<SeedTok(Operator, TRUE, 0, 0)>>, <<SeedTok(Operator, TRUE, 0, T0)>>}
-
-Init == \E seed \in Seeds : InitWith(T0, seed) /\ hist = <<>>
+Plain == <<(<<>>), <<SeedTok(Admin, TRUE, T0 + 1, T0)>>, <<SeedTok(Engineer, FALSE, T0 + TokenTTL, T0)>>>>
+\* entries written by a version without expiry: one overdue at start, one not yet
+Legacy == <<(<<SeedTok(Operator, TRUE, 0, 0)>>), <<SeedTok(Operator, TRUE, 0, T0)>>>>
+SeedList == CASE SeedMode = "none" -> <<(<<>>)>>
+              [] SeedMode = "plain" -> Plain
+              [] SeedMode = "legacy" -> Legacy
+              [] OTHER -> Plain \o Legacy
 
 \* script step, uniform shape: [op, c, role, k, id, dt, kind]
 Step(op, c, role, k, id, dt, kind) == [op |-> op, c |-> c, role |-> role, k |-> k, id |-> id, dt |-> dt, kind |-> kind]
+Init == \E i \in DOMAIN SeedList :
+          /\ InitWith(T0, SeedList[i])
+          /\ hist = IF ExportScripts THEN <<Step("Seed", i, NoRole, 0, -1, 0, "")>> ELSE <<>>
+
 Log(st) == hist' = IF ExportScripts THEN Append(hist, st) ELSE hist
-Room == ~ExportScripts \/ Len(hist) < MaxSteps
+Room == ~ExportScripts \/ Len(hist) <= MaxSteps
 
 Ids == {issued[k].id : k \in DOMAIN issued} \cup {-1}
 \* instants at which something changes: expiry of the pending code and of every token, each with
@@ -64,6 +69,6 @@ Next == DoStart \/ DoClaim \/ DoValidate \/ DoList \/ DoRevoke \/ DoRevokeAll \/
 Spec == Init /\ [][Next]_mvars
 
 \* ------------------------------------------------------------------ export (spec -> impl)
-Export == (ExportScripts /\ Len(hist) = MaxSteps) =>
-            PrintT(<<"SCRIPT", ToJson([t0 |-> T0, steps |-> hist])>>)
+Export == (ExportScripts /\ Len(hist) = MaxSteps + 1) =>
+            PrintT(<<"SCRIPT", ToJson([t0 |-> T0, seed |-> SeedList[hist[1].c], steps |-> SubSeq(hist, 2, Len(hist))])>>)
 =================================================================================
